@@ -319,8 +319,15 @@ def _truncated(t, x, r, world, path="$", depth=0):
         return None
     t = _resolve_t(t, world)
     if isinstance(x, (str, bytes, bytearray, memoryview)):
+        # text counts as a list only where the standard decoder *and* the one the library is
+        # configured with read it as JSON (the latter refuses e.g. lone surrogate escapes; such text
+        # is then plain text by the library's documented rule, and a list of its characters conforms)
         try:
-            x = _json.loads(bytes(x) if not isinstance(x, str) else x)
+            from typelib.py import compat
+
+            raw = bytes(x) if not isinstance(x, str) else x
+            compat.json.loads(raw)
+            x = _json.loads(raw)
         except Exception:
             return None
     k = t["k"]
